@@ -27,7 +27,7 @@ RULE = ("random release tables (1-12 rows, 1-5 distinct times on the model time 
         "time-typed particle variable, header in file or names in configuration, X/Y or lon/lat), discrete and continuous "
         "(frequency 1-4 steps), forward and reversed, still water, output every step. Non-trivial: at least two release "
         "events at different steps or rows outside the window or mult != 1; distinct by (mode, direction, step/mult pattern).")
-MANDATORY = ["discrete_forward", "discrete_reversed", "continuous_forward", "continuous_reversed",
+MANDATORY = ["release_after_particles_were_removed", "discrete_forward", "discrete_reversed", "continuous_forward", "continuous_reversed",
              "row_before_start", "row_at_or_after_stop", "mult_zero", "mult_gt1", "several_rows_per_time", "lonlat_position",
              "names_in_config", "particle_variable_column", "release_hook_events", "time_typed_column_values", "column_with_configured_default"]
 ASSUMPTIONS = ["release times on the model time grid and sorted in simulation order (as the property quantifies)",
@@ -213,6 +213,19 @@ def run_case(case: dict[str, Any], wd: Path) -> dict[str, Any]:
     exp = expected_schedule(case)
     scn = build_scenario(case)
     events: list[dict[str, Any]] = []
+    # a third of the cases: the IBM kills the first particle of every release batch in the step of its release, so that later
+    # releases enter a state from which particles have been removed (new particles must still be new)
+    killed_at: dict[int, int] = {}
+    if case["idx"] % 3 == 2 and exp:
+        seen_steps: set[int] = set()
+        for pid_, e_ in enumerate(exp):
+            if e_["step"] not in seen_steps:
+                seen_steps.add(e_["step"])
+                killed_at[pid_] = e_["step"]
+        sched: dict[str, list[int]] = {}
+        for pid_, s_ in killed_at.items():
+            sched.setdefault(str(s_), []).append(pid_)
+        scn["run"]["ibm"] = dict(module=C.REC_IBM, kill=sched, log=False)
 
     def before(self, *a, **k):
         return self.modules["state"].npid
@@ -250,6 +263,7 @@ def run_case(case: dict[str, Any], wd: Path) -> dict[str, Any]:
     sit["names_in_config"] = int(not case["header"])
     sit["particle_variable_column"] = int(any(e[2] == "particle" for e in case["extras"]) or case["release_time_pv"])
     sit["release_hook_events"] = len(events)
+    sit["release_after_particles_were_removed"] = int(len(set(killed_at.values())) >= 2)
     sit["column_with_configured_default"] = int(case["idx"] % 2 == 1 and any(e[1] != "time" for e in case["extras"]))
     counters = {"ParticleReleaser.update calls": nhook, "expected_particles": len(exp)}
     sample = dict(mode=mode, dt=dt, nsteps=case["nsteps"], columns=cols, rows=case["rows"][:4], n_rows=len(case["rows"]),
@@ -338,8 +352,12 @@ def run_case(case: dict[str, Any], wd: Path) -> dict[str, Any]:
     cum = 0
     for ri, r in enumerate(recs):
         cum += by_step.get(ri, 0)
-        if len(r.pid) != cum:
-            V.append(C.viol(f"record {ri} holds {len(r.pid)} particles, {cum} scheduled so far (still water, no deaths)"))
+        gone = sum(1 for s_ in killed_at.values() if s_ < ri)
+        if len(r.pid) != cum - gone:
+            V.append(C.viol(f"record {ri} holds {len(r.pid)} particles, {cum} scheduled so far, {gone} of them killed by the IBM before this record (still water)"))
+            break
+        if len(set(int(p) for p in r.pid)) != len(r.pid):
+            V.append(C.viol(f"record {ri}: identifiers repeat within the record ({[int(p) for p in r.pid][:12]}): a release did not yield new particles"))
             break
     nontrivial = len(by_step) >= 2 or sit["row_before_start"] or sit["row_at_or_after_stop"] or sit.get("mult_zero") or sit.get("mult_gt1")
     return C.result(V, sit, counters, nontrivial=nontrivial, key=key, sample=sample)
